@@ -1218,14 +1218,28 @@ func (a *Agent) SocksServerRemove(Addr string) {
 func (a *Agent) ToMap() map[string]interface{} {
 	var (
 		ParentAgent *Agent
+		LinkAgents  []*Agent
+		PivotLinks  = []string{}
 		Info        map[string]any
 		MagicValue  string
 	)
 
+	// the pivot graph is cyclic (child.Pivots.Parent points back at this agent), so neither
+	// the parent nor the links may be walked by structs.Map: report them by id instead
 	ParentAgent = a.Pivots.Parent
+	LinkAgents = a.Pivots.Links
 	a.Pivots.Parent = nil
+	a.Pivots.Links = nil
 
 	Info = structs.Map(a)
+
+	a.Pivots.Links = LinkAgents
+	for _, LinkAgent := range LinkAgents {
+		if LinkAgent != nil {
+			PivotLinks = append(PivotLinks, LinkAgent.NameID)
+		}
+	}
+	Info["PivotLinks"] = PivotLinks
 
 	Info["Info"].(map[string]interface{})["Listener"] = nil
 
